@@ -118,6 +118,38 @@ def run(res, proofs_ok, proofs_why):
                         "why": ["C library %s, Rust client %s (same segment, same moment, both attached before the change and neither had called before)" % (cc, rr)]})
         elif rr != want:
             diffs.append({"case": {"record": list(recv), "what": what}, "what": "both libraries %s, model on the empty record %s" % (rr, want)})
+    # the same segment reached through paths of every length around the longest one open(2) takes (4095 bytes):
+    # both libraries open it, or both report the failing open with ENAMETOOLONG
+    root = os.path.join(c.BUILD, "scratch", "lng-%d" % os.getpid())
+    shutil.rmtree(root, ignore_errors=True)
+    os.makedirs(root)
+    recv = F.rand_record(rng)[:6] + (1,)
+    with open(os.path.join(root, "shm"), "wb") as fh:
+        fh.write(F.header(gen=6) + F.record(recv))
+    mono = recv[0] * NS + recv[1] + 2 * NS
+    real = rng.randrange(10 ** 9) * NS + rng.randrange(NS)
+    clk = "%d %d %d %d" % (real // NS, real % NS, mono // NS, mono % NS)
+    lens = [len(root) + 4, 255, 256, 1023, 1024, 4000, 4093, 4094, 4095, 4096, 4097, 4098, 5000, 8192]
+    llines = ["lng %s %d %s" % (root, n, clk) for n in lens]
+    l_rust = c.run_lines(c.build_harness("debug")[0], llines)
+    l_c = c.run_lines(F.build_c_driver(), llines, args=())
+    l_model = c.run_model(["cba %d %d %d %d %d %d %d %s" % (recv + (clk,))])[0]
+    shutil.rmtree(root, ignore_errors=True)
+    for n, rr, cc in zip(lens, l_rust, l_c):
+        res.evaluations += 1
+        res.count("gen:segment path of a given length")
+        res.nontriv("path-length-%d" % n)
+        rf, cf = F.parse_fields(rr), F.parse_fields(cc)
+        rkn, ckn = (F.canon_err(rf["K"]), F.canon_err(rf["N"])), (F.canon_err(cf["K"]), F.canon_err(cf["N"]))
+        want = ("ok", l_model.replace(" ", ":")) if n <= 4095 else ("syscall:36:1", "-")
+        if rf["len"] != cf["len"] or int(rf["len"]) != max(n, len(root) + 4):
+            raise c.CheckError("lng: path lengths differ: asked %d, rust %s, c %s" % (n, rf["len"], cf["len"]))
+        if rkn != ckn:
+            bad.append({"case": {"file": "valid segment reached through a path of %d bytes" % n, "record": list(recv), "clock": clk},
+                        "why": ["open and now(): C library %s, Rust client %s (same segment, same path, same instant)" % (ckn, rkn)]})
+        elif rkn != want:
+            bad.append({"case": {"file": "valid segment reached through a path of %d bytes" % n, "record": list(recv), "clock": clk},
+                        "why": ["both libraries give %s; open(2) takes paths of up to 4095 bytes, the documented outcome is %s" % (rkn, want)]})
     res.samples = [F.describe(results[i]) for i in (0, 5, len(results) - 1)]
     res.traces_validated = len(results) - len(diffs)
     res.oblige("correspondence:daemon bytes vs Layout.encode_header/encode_ceb; now() of both client libraries vs Client.compute_bound_at on the decoded record", not diffs)
